@@ -204,7 +204,8 @@ class ScriptedPeer:
         if t == "A":
             if auto["logon"] and not self.logged_on and self.sim.eut_role == "initiator":
                 self.logged_on = True
-                self.send("A", [("98", "0"), ("108", d.get("108", "30"))], spec={"auto": "logon"})
+                self.send("A", [("98", "0"), ("108", d.get("108", "30"))] + list(getattr(self, "logon_extra", ())),
+                          spec={"auto": "logon"})
                 self.sim.peer_event("logon_sent")
             else:
                 self.logged_on = True
